@@ -20,6 +20,7 @@ import (
 	"bytes"
 	"context"
 	"fmt"
+	"hash/fnv"
 	"io"
 	"os"
 	"os/exec"
@@ -151,7 +152,7 @@ func openImageReader(dir string) string {
 }
 
 // openImageWriter: the real OpenWriter on the image, its content, one more batch, close.
-func openImageWriter(dir string) string {
+func openImageWriter(dir string, probe bool) string {
 	w, err := bluge.OpenWriter(bluge.DefaultConfig(dir))
 	if err != nil {
 		return "err"
@@ -163,6 +164,12 @@ func openImageWriter(dir string) string {
 	}
 	res := contentOf(r)
 	_ = r.Close()
+	if !probe {
+		if err := w.Close(); err != nil {
+			return "err:close"
+		}
+		return res
+	}
 	b := bluge.NewBatch()
 	b.Insert(bluge.NewDocument("probe").AddField(bluge.NewKeywordField("tok", "0").StoreValue()))
 	p := 0
@@ -188,7 +195,9 @@ func ChildMain2(args []string) {
 	mode := args[0]
 	for _, d := range args[1:] {
 		if mode == "wr" {
-			fmt.Println("R " + openImageWriter(d))
+			fmt.Println("R " + openImageWriter(d, false))
+		} else if mode == "wrp" {
+			fmt.Println("R " + openImageWriter(d, true))
 		} else {
 			fmt.Println("R " + openImageReader(d))
 		}
@@ -199,6 +208,7 @@ type imgJob2 struct {
 	recIdx int
 	v      variant3
 	dir    string
+	probe  bool // the writer child also applies one more batch
 	rd, wr string
 }
 
@@ -206,6 +216,41 @@ type imgJob2 struct {
 // bluge.OpenWriter + one batch). A child that dies is re-run on the culprit alone: "fault"; one that
 // does not finish in time: "hang".
 func runChildren2(jobs []*imgJob2, mode string) {
+	if mode == "both" {
+		// reader first (read only), then the writer; probing writers separately; three chunks at a time
+		const chunk = 32
+		var parts [][]*imgJob2
+		for i := 0; i < len(jobs); i += chunk {
+			j := i + chunk
+			if j > len(jobs) {
+				j = len(jobs)
+			}
+			parts = append(parts, jobs[i:j])
+		}
+		sem := make(chan struct{}, 3)
+		var wg sync.WaitGroup
+		for _, part := range parts {
+			wg.Add(1)
+			sem <- struct{}{}
+			go func(part []*imgJob2) {
+				defer wg.Done()
+				defer func() { <-sem }()
+				runChildren2(part, "rd")
+				var plain, probe []*imgJob2
+				for _, j := range part {
+					if j.probe {
+						probe = append(probe, j)
+					} else {
+						plain = append(plain, j)
+					}
+				}
+				runChildren2(plain, "wr")
+				runChildren2(probe, "wrp")
+			}(part)
+		}
+		wg.Wait()
+		return
+	}
 	exe, _ := os.Executable()
 	pending := jobs
 	chunk := 48
@@ -262,7 +307,7 @@ func runChildren2(jobs []*imgJob2, mode string) {
 }
 
 func set(j *imgJob2, mode, res string) {
-	if mode == "wr" {
+	if mode == "wr" || mode == "wrp" {
 		j.wr = res
 	} else {
 		j.rd = res
@@ -375,6 +420,11 @@ func variantsOf(im *image, all bool, r *hlib.Rand) []variant3 {
 			m[k] = v
 			c[k] = true
 		}
+		for k, v := range im.junk {
+			if _, ok := m[k]; !ok {
+				m[k] = v
+			}
+		}
 		return m, c
 	}
 	names := make([]string, 0, len(im.inflight))
@@ -464,6 +514,21 @@ func (v variant3) line(word string) string {
 	return fmt.Sprintf("%s %s %s %s%s", word, v.snap, segs, v.desc, acc)
 }
 
+func imageKey(files map[string][]byte, nack int) uint64 {
+	names := make([]string, 0, len(files))
+	for n := range files {
+		names = append(names, n)
+	}
+	sort.Strings(names)
+	h := fnv.New64a()
+	fmt.Fprintf(h, "%d|", nack)
+	for _, n := range names {
+		fmt.Fprintf(h, "%s:%d:", n, len(files[n]))
+		_, _ = h.Write(files[n])
+	}
+	return h.Sum64()
+}
+
 func writeImage(dir string, files map[string][]byte) {
 	_ = os.RemoveAll(dir)
 	_ = os.MkdirAll(dir, 0o755)
@@ -479,11 +544,20 @@ func (h *HR) newCase(lt *lifetime, dir, work string, f []string) *caseRun {
 		n: h.n, unsafe: kvInt(f, "unsafe", 0) == 1, merge: kvInt(f, "merge", 2), jit: kvInt(f, "jit", 0),
 		rng: hlib.NewRand(uint64(kvInt(f, "seed", 1))), files: map[string][]byte{}, inflight: map[string][]byte{},
 		isFile: map[uint64]bool{}, epochK: map[uint64]int{}, introSem: make(chan struct{}, 1), tokC: map[int]int{},
-		acked: map[int]bool{}, readers: map[int]*index.Snapshot{}, imgEvery: 8, prev: map[string][]byte{}, lt: lt}
-	if nap := kvInt(f, "nap", 0); nap > 0 {
+		acked: map[int]bool{}, readers: map[int]*index.Snapshot{}, imgEvery: 8, prev: map[string][]byte{}, junk: map[string][]byte{}, lt: lt}
+	nap := kvInt(f, "nap", 0)
+	noMerge := c.merge < 0
+	if nap > 0 || noMerge {
 		c.cfgHook = func(cfg *index.Config) {
-			cfg.PersisterNapTimeMSec = nap
-			cfg.PersisterNapUnderNumFiles = 100000
+			if nap > 0 {
+				cfg.PersisterNapTimeMSec = nap
+				cfg.PersisterNapUnderNumFiles = 100000
+			}
+			if noMerge { // merge=-1: no file merges, no in-memory merges: one segment per batch stays one segment
+				cfg.MergePlanOptions.MaxSegmentsPerTier = 10000
+				cfg.MergePlanOptions.SegmentsPerMergeTask = 10000
+				cfg.MinSegmentsForInMemoryMerge = 1 << 30
+			}
 		}
 	}
 	return c
@@ -593,34 +667,67 @@ func (h *HR) emitLifetime(lt *lifetime, out func(string, string), st *hlib.Stats
 	r := hlib.NewRand(uint64(len(recs))*7919 + uint64(h.seq))
 	var jobs []*imgJob2
 	imgRoot := filepath.Join(c.work, "img")
-	nplain := 0
+	nplain, ninfl := 0, 0
+	seen := map[uint64]bool{}
+	nack := make([]int, len(recs))
+	na := 0
+	for i, rc := range recs {
+		if opWord(rc.op) == "ackobs" {
+			na++
+		}
+		nack[i] = na
+	}
 	for i, rc := range recs {
 		if rc.img == nil {
 			continue
 		}
 		infl := len(rc.img.inflight) > 0
-		if !all && !infl {
-			nplain++
-			w := strings.SplitN(rc.op, " ", 2)[0]
-			switch w {
-			case "ackobs", "commit", "rmsnap", "rmseg", "snapend", "segend", "msegend", "ipersist", "opened":
-				if nplain%3 != 0 {
-					continue
+		limit := 0
+		if !all {
+			if infl {
+				// quick tier: every third record with files in flight gets its whole (boundary) variant set, the others two variants
+				ninfl++
+				if ninfl%4 != 1 {
+					limit = 2
 				}
-			default:
-				if nplain%7 != 0 {
-					continue
+			} else {
+				nplain++
+				w := strings.SplitN(rc.op, " ", 2)[0]
+				switch w {
+				case "ackobs", "commit", "rmsnap", "rmseg", "snapend", "segend", "msegend", "ipersist", "opened":
+					if nplain%4 != 0 {
+						continue
+					}
+				default:
+					if nplain%9 != 0 {
+						continue
+					}
 				}
 			}
 		}
-		for vi, v := range variantsOf(rc.img, all, r) {
+		vs := variantsOf(rc.img, all, r)
+		if limit > 0 && len(vs) > limit {
+			a := r.Intn(len(vs))
+			b := (a + 1 + r.Intn(len(vs)-1)) % len(vs)
+			vs = []variant3{vs[a], vs[b]}
+		}
+		for vi, v := range vs {
+			// the same directory content under the same set of observed acknowledgements says nothing new
+			key := imageKey(v.files, nack[i])
+			if seen[key] {
+				st.Count("img-skipped:duplicate")
+				continue
+			}
+			seen[key] = true
 			d := filepath.Join(imgRoot, fmt.Sprintf("%d_%d", i, vi))
 			writeImage(d, v.files)
 			jobs = append(jobs, &imgJob2{recIdx: i, v: v, dir: d})
 		}
 	}
-	runChildren2(jobs, "rd")
-	runChildren2(jobs, "wr")
+	for i, j := range jobs {
+		j.probe = i%6 == 0
+	}
+	runChildren2(jobs, "both")
 	ji := 0
 	lt.posOf = make([]int, len(recs))
 	emit := func(op, res string) {
@@ -645,7 +752,11 @@ func (h *HR) emitLifetime(lt *lifetime, out func(string, string), st *hlib.Stats
 }
 
 func (h *HR) emitImage(j *imgJob2, depth int, out func(string, string), st *hlib.Stats) {
-	out(j.v.line("image"), "rd="+j.rd+" wr="+j.wr)
+	ln := j.v.line("image")
+	if j.probe {
+		ln += " probe=1"
+	}
+	out(ln, "rd="+j.rd+" wr="+j.wr)
 	st.Evaluations++
 	st.Count("op:image")
 	parts := strings.Split(j.v.desc, ":")
@@ -669,6 +780,7 @@ func choose(parent *lifetime, kind string, sel, vr int, all bool) (int, variant3
 	recs := parent.c.log
 	var cand []int
 	firstSnap := true
+	maxK := 0
 	for i, rc := range recs {
 		if rc.img == nil {
 			continue
@@ -685,8 +797,22 @@ func choose(parent *lifetime, kind string, sel, vr int, all bool) (int, variant3
 		case "acked":
 			ok = w == "ackobs" || w == "ack" || w == "commit" || w == "rmsnap" || w == "rmseg"
 		case "twofault":
+			// the first snapshot of a batch that is not the first: its content is new, the batch unacknowledged
 			if w == "snapbegin" {
-				ok = !firstSnap
+				f := strings.Fields(rc.op)
+				k := 0
+				if len(f) >= 3 {
+					k, _ = strconv.Atoi(f[2])
+				}
+				ok = !firstSnap && k > maxK
+				if k > maxK {
+					maxK = k
+				}
+				firstSnap = false
+			}
+		case "firstsnap-torn", "firstsnap-absent":
+			if w == "snapbegin" {
+				ok = firstSnap
 				firstSnap = false
 			}
 		default:
@@ -720,6 +846,14 @@ func choose(parent *lifetime, kind string, sel, vr int, all bool) (int, variant3
 			}
 		case "twofault":
 			if v.snap == "t" && strings.Contains(v.desc, ":zero:") {
+				pick = append(pick, v)
+			}
+		case "firstsnap-torn":
+			if v.snap == "t" {
+				pick = append(pick, v)
+			}
+		case "firstsnap-absent":
+			if v.snap == "a" {
 				pick = append(pick, v)
 			}
 		default:
@@ -756,9 +890,8 @@ func (h *HR) fork(f []string, out func(string, string), st *hlib.Stats) {
 	_ = os.MkdirAll(work, 0o755)
 	writeImage(dir, v.files)
 	writeImage(chk, v.files)
-	j := &imgJob2{recIdx: p, v: v, dir: chk}
-	runChildren2([]*imgJob2{j}, "rd")
-	runChildren2([]*imgJob2{j}, "wr")
+	j := &imgJob2{recIdx: p, v: v, dir: chk, probe: true}
+	runChildren2([]*imgJob2{j}, "both")
 	_ = os.RemoveAll(chk)
 
 	lt := &lifetime{depth: depth}
@@ -766,9 +899,11 @@ func (h *HR) fork(f []string, out func(string, string), st *hlib.Stats) {
 	c := h.newCase(lt, dir, work, f)
 	lt.c = c
 	pc := parent.c
-	for name, ok := range v.complete {
-		if ok {
-			c.files[name] = v.files[name]
+	for name, b := range v.files {
+		if v.complete[name] {
+			c.files[name] = b
+		} else {
+			c.junk[name] = b
 		}
 	}
 	for e, k := range pc.epochK {
@@ -850,7 +985,7 @@ func (h *HR) Gen(r *hlib.Rand, tier string, scale int, emit func(string)) {
 		h.genFaults(r, tier, scale, emit)
 		return
 	}
-	cases := 9 * scale
+	cases := 8 * scale
 	if tier == "thorough" {
 		cases = 40 * scale
 	}
@@ -879,13 +1014,14 @@ func (h *HR) Gen(r *hlib.Rand, tier string, scale int, emit func(string)) {
 		}
 		if ci%4 == 1 {
 			// the deliberate two-fault scenario: torn snapshot of epoch E, recovery to E-1, epoch E written again
-			emit(fmt.Sprintf("case %d n=%d unsafe=0 merge=0 jit=0 seed=%d", ci, n, r.Intn(1<<30)))
+			emit(fmt.Sprintf("case %d n=%d unsafe=0 merge=-1 jit=0 seed=%d", ci, n, r.Intn(1<<30)))
 			nb := r.Range(3, 5)
 			for i := 0; i < nb; i++ {
-				emit("b " + mk(false))
+				tok++
+				emit("b " + batchSpec{tok: tok}.String()) // one marker document, its own segment
 			}
 			emit("end")
-			emit(fmt.Sprintf("fork depth=1 kind=twofault sel=0 var=%d unsafe=1 merge=0 jit=0 nap=60 seed=%d", r.Intn(8), r.Intn(1<<30)))
+			emit(fmt.Sprintf("fork depth=1 kind=twofault sel=0 var=%d unsafe=1 merge=-1 jit=0 nap=60 seed=%d", r.Intn(8), r.Intn(1<<30)))
 			emit("reissue")
 			emit("wait")
 			emit("b " + mk(true))
@@ -928,6 +1064,15 @@ func (h *HR) Gen(r *hlib.Rand, tier string, scale int, emit func(string)) {
 			ops(7, 12, unsafe)
 		}
 		emit("end")
+		if ci%4 == 2 {
+			// the boundary of "a snapshot had ever been completed": a crash during the very first snapshot Persist
+			emit(fmt.Sprintf("fork depth=1 kind=firstsnap-torn sel=0 var=%d unsafe=0 merge=2 jit=0 nap=0 seed=%d", r.Intn(1000), r.Intn(1<<30)))
+			emit("b " + mk(false))
+			emit("end")
+			emit(fmt.Sprintf("fork depth=1 kind=firstsnap-absent sel=0 var=0 unsafe=0 merge=2 jit=0 nap=0 seed=%d", r.Intn(1<<30)))
+			emit("b " + mk(false))
+			emit("end")
+		}
 		kinds := []string{"snap", "orphan", "seg", "acked", "any", "snap"}
 		nf := 2
 		maxDepth := 2
